@@ -273,6 +273,7 @@ PW = "aw_datastore/storages/peewee.py"
 ME = "aw_datastore/storages/memory.py"
 DS = "aw_datastore/datastore.py"
 VARIANTS = [
+    ("B second call site of the read statement binds LIMIT to a constant", "aw_datastore/storages/sqlite.py", "        rows = c.execute(query, [bucket_id, starttime_i, endtime_i, limit])\n        events = _rows_to_events(rows)\n        return events", "        if limit > 0:\n            rows = c.execute(query, [bucket_id, starttime_i, endtime_i, limit])\n        else:\n            rows = c.execute(query, [bucket_id, starttime_i, endtime_i, 10])\n        events = _rows_to_events(rows)\n        return events", "LIMIT"),
     ("B sqlite end column computed from duration.seconds (drops whole days)", SQ, "        endtime = starttime + (event.duration.total_seconds() * 1000000)\n        datastr = json.dumps(event.data)\n        c.execute(", "        endtime = starttime + event.duration.seconds * 1000000 + event.duration.microseconds\n        datastr = json.dumps(event.data)\n        c.execute(", "CODEC"),
     ("B sqlite ordered by endtime (original defect)", SQ, "ORDER BY starttime DESC, id DESC LIMIT ?", "ORDER BY endtime DESC LIMIT ?", "ORDER"),
     ("B memory count ignores durations (original defect)", ME, "if (not starttime or starttime <= e.timestamp + e.duration)", "if (not starttime or starttime <= e.timestamp)", ["PRED", "PRED-AGREE"]),
